@@ -6,7 +6,7 @@ package bufcas
 // path without ".." components (so a manifest cannot name anything outside the bucket it is materialised into).
 func VerifLemma_C13E_FileNodePath() {
 	path := verifNondetString(verifParam("N"))
-	digest := viDigest(false, 1)
+	digest := Digest(newDigest(DigestTypeShake256, make([]byte, 64)))
 	err := validateFileNodeParameters(path, digest)
 	verifCover("called")
 	plain := len(path) > 0
